@@ -96,7 +96,9 @@ Fixpoint find_prefix_rev (off : N) (acc l : list item) : option (list item) :=
 
 (* the result loop: first element, then "if limit >= 0 && i >= limit break" *)
 Definition take (limit : Z) (l : list item) : list item :=
-  if (limit <? 0)%Z then l else firstn (Z.to_nat limit) l.
+  if (limit <? 0)%Z then l
+  else if (Z.of_nat (length l) <=? limit)%Z then l   (* = firstn, without building a huge unary number *)
+  else firstn (Z.to_nat limit) l.
 
 Definition sget (s : stream) (off : N) (useOff : bool) (limit : Z) (reverse : bool)
   : list item :=
